@@ -253,6 +253,8 @@ type Recorder struct {
 	Conns []*ConnRec
 	// optional probes used by C18 to touch what a user callback may legitimately touch
 	OnJoin func(msg *service.Message, key string, err error)
+	// optional probe used by C11: what a (slow) application write callback does; runs in the connection's writer
+	OnWrite func(msg *service.Message)
 }
 
 func NewRecorder() *Recorder {
@@ -312,7 +314,10 @@ func (e *recEventer) OnReadExecutionEvent(_ *service.Message) {
 	e.c.Reads++
 	e.r.mu.Unlock()
 }
-func (e *recEventer) OnWriteExecutionEvent(_ service.Message) {
+func (e *recEventer) OnWriteExecutionEvent(msg service.Message) {
+	if f := e.r.OnWrite; f != nil {
+		f(&msg)
+	}
 	e.r.mu.Lock()
 	e.c.Writes++
 	e.r.mu.Unlock()
